@@ -1,5 +1,6 @@
 import Casket.Model.Chain
 import Casket.Spec.Chain
+import Casket.Spec.Cond
 import Driver.C02
 /-
 Streams of C03.
@@ -16,7 +17,9 @@ Streams of C03.
          gzip                                   (no effect on decoded content)
        a `to` token is literal text in which `{path}` is the placeholder
      creds       hex of user:password ("" = no Authorization header)
-     out         as c02.serve, plus  U401  and  B TAB <backend number>
+     cond        (optional twelfth field) hex of conditions as in c02.cond
+     out         as c02.serve, plus  U401  and  B TAB <backend number>; HEAD and conditional answers that
+                 identify a file: C304 f | C200/CH200 - f d | C206/CH206 - f d a-b | C416 f|- | X f d in-<status>
 -/
 namespace Driver.C03
 open Casket.Path Casket.FS Casket.FileServe Casket.Chain Driver.C02
@@ -91,6 +94,8 @@ structure Case where
   req : CReq
 
 def parseCase : List String → Option Case
+  | [fsH, rootH, cfH, preH, brH, ixH, dirH, method, tgtH, aeH, credH, _cond] =>
+    parseCase [fsH, rootH, cfH, preH, brH, ixH, dirH, method, tgtH, aeH, credH]
   | [fsH, rootH, cfH, preH, brH, ixH, dirH, method, tgtH, aeH, credH] => do
     let c ← Driver.C02.parseCase [fsH, rootH, cfH, preH, brH, ixH, method, tgtH, aeH]
     let dirs ← Driver.unhex dirH
@@ -109,10 +114,40 @@ def renderC (method : Bytes) : CResp → String
   | .unauthorized => "U401"
   | .backend id => if method = mHEAD then "H200\t-" else s!"B\t{id}"
 
+/-- the `cond` field (twelfth, optional): conditions as in c02.cond -/
+def condOf (f : List String) : Option Casket.Cond.Cond :=
+  match f with
+  | [_, _, _, _, _, _, _, _, _, _, _, c] =>
+    match Driver.unhex c with
+    | some [] => none
+    | some t => some (Driver.C02.parseCond t)
+    | none => none
+  | _ => none
+
+open Casket.Cond in
+/-- answers that identify a file through headers (HEAD, conditional, range): Content-Encoding is
+left out (a site with the gzip directive announces it for anything) -/
+def renderMeta (method : Bytes) : CondResp → String
+  | .plain r => render method r
+  | .notModified f => s!"C304\t{f}"
+  | .full f _ d => (if method = mHEAD then "CH200" else "C200") ++ s!"\t-\t{f}\t{d}"
+  | .part f _ d a b => (if method = mHEAD then "CH206" else "C206") ++ s!"\t-\t{f}\t{d}\t{a}-{b}"
+  | .unsatisfiable (some f) => s!"C416\t{f}"
+  | .unsatisfiable none => "C416\t-"
+  | .explored f d => s!"X\t{f}\t{d}"
+
+def noCond : Casket.Cond.Cond := { inm := [], ims := none, range := none, explored := false }
+
 def chainModel (f : List String) : String :=
   match parseCase f with
   | none => "bad-case"
-  | some c => renderC c.req.method (chainServe c.fs c.cs c.req)
+  | some c =>
+    let resp := chainServe c.fs c.cs c.req
+    let cond := condOf f
+    match resp, finalUrl c.fs c.cs c.req with
+    | .served (.file ino enc), some u =>
+      renderMeta c.req.method (Casket.Cond.applyCond (cond.getD noCond) ino enc (Casket.Cond.resolvedIno c.fs c.cs.site u))
+    | _, _ => renderC c.req.method resp
 
 def parseObsC (out : String) : Option CResp :=
   if out = "U401" then some .unauthorized
@@ -120,13 +155,28 @@ def parseObsC (out : String) : Option CResp :=
     | ["B", n] => n.toNat?.map CResp.backend
     | _ => (parseObs out).map CResp.served
 
+/-- a metadata answer (HEAD, 304, 206, 416 …) is judged like content: every file its headers or
+partial body identify counts as disclosed -/
+def metaObs (out : String) : Option Casket.Cond.CondResp :=
+  if out.startsWith "C" ∨ out.startsWith "X\t" then
+    match Driver.C02.parseCondObs out with
+    | some (.plain _) => none
+    | o => o
+  else none
+
 def chainJudge (f : List String) (out : String) : String :=
   match parseCase f with
   | none => "bad:unparsable:case"
   | some c =>
-    match parseObsC out with
-    | none => "bad:unparsable:" ++ out
-    | some obs => Casket.ChainSpec.verdict c.fs c.cs c.req obs
+    match metaObs out with
+    | some cobs =>
+      let vs := (Casket.CondSpec.mentioned cobs).map fun ino =>
+        Casket.ChainSpec.verdict c.fs c.cs c.req (.served (.file ino none))
+      (vs.find? (· ≠ "ok")).getD "ok"
+    | none =>
+      match parseObsC out with
+      | none => "bad:unparsable:" ++ out
+      | some obs => Casket.ChainSpec.verdict c.fs c.cs c.req obs
 
 def streams : List Driver.Stream := [
   { name := "c03.chain", model := chainModel, judge := chainJudge }
